@@ -98,7 +98,7 @@ def run_ssa(ck, recs, n):
 def model_names(ck, terms, name):
     """link_name of every entity term, evaluated by the Coq model"""
     COQ_READY.wait(1500)
-    body = HDR + "".join("Eval vm_compute in link_name %s.\n" % t for t in terms)
+    body = HDR + "".join("Eval vm_compute in link_name true %s.\n" % t for t in terms)
     rc, out = ck.coq_run(body, name)
     if rc != 0:
         ck.broken.append("model-eval:" + name)
@@ -341,7 +341,7 @@ def run(ck):
         ("path_of", ["(%s, %s)" % (S(r["pkg"]), S(r["path"])) for r in fp], "path_of", fp),
         ("type_args", ["(%s, %s)" % (r["targs"], S(r["text"])) for r in ta], "(fun ts => [c_lb] ++ join_comma (targs_strs ts) ++ [c_rb])", ta),
         ("named_name", ["((%s, %s), %s)" % (S(r["name"]), r["targs"], S(r["text"])) for r in nn], "(fun x => named_name (fst x) (snd x))", nn),
-        ("func_name", ["(%s, %s)" % (ent_term(r["ent"]), S(r["got"])) for r in fn], "core_name", fn),
+        ("func_name", ["(%s, %s)" % (ent_term(r["ent"]), S(r["got"])) for r in fn], "(core_name true)", fn),
     ]
     with ThreadPoolExecutor(5) as ex2:
         total += sum(ex2.map(lambda j: compare(*j), jobs))
